@@ -4,7 +4,7 @@ use crate::compiler::codes;
 use crate::compiler::expression::function_call::FunctionCallError::InvalidArgumentKind;
 use crate::compiler::expression::function_call::InvalidArgumentErrorContext;
 use crate::compiler::{
-    CompileConfig, Context, Expression, Span, TypeDef,
+    CompileConfig, Context, Expression, ExpressionError, Span, TypeDef,
     compiler::CompilerError,
     expression::{Expr, Resolved, assignment::ErrorVariant::InvalidParentPathSegment},
     parser::{
@@ -538,6 +538,11 @@ where
                     ok.insert(value.clone(), ctx);
                     err.insert(Value::Null, ctx);
                     value
+                }
+                // `abort` and `return` end the program; they are not errors that the
+                // infallible assignment captures.
+                Err(control @ (ExpressionError::Abort { .. } | ExpressionError::Return { .. })) => {
+                    return Err(control);
                 }
                 Err(error) => {
                     ok.insert(default.clone(), ctx);
